@@ -33,3 +33,132 @@ Definition back_subst (D : nat) (L : list (list Qc)) (z : list Qc) : list Qc := 
 Definition mvn_mean (D : nat) (L : list (list Qc)) (b : list Qc) : list Qc := back_subst D L (fwd_subst L b).
 Definition sample_mvn (D : nat) (L : list (list Qc)) (z b : list Qc) : list Qc :=
   vadd D (back_subst D L z) (mvn_mean D L b).
+
+(* ---------------------------------------------------------------- vocabulary of the source translation of
+   batchie.fast_mvn.sample_mvn_from_precision (Generated/SrcMvn.v, configuration C08_SAMPLE_MVN of
+   harness/src_functions.py).  The function may raise (np.linalg.cholesky on a matrix that is not positive definite) and
+   it draws (rng.normal): it denotes a program of draws whose result is a [result] - [mprog], the free monad [gprog] of
+   Model/Gibbs.v over the exception monad of Lib/Sexp.v. *)
+From Batchie Require Import Lib.Sexp.
+Open Scope Qc_scope.
+Definition mprog (T : Type) : Type := gprog (result T).
+Definition mp_ret {T : Type} (x : T) : mprog T := GRet (Ok x).
+Definition mp_raise {T : Type} (tag : Z) : mprog T := GRet (Err tag).
+Definition mp_bind {A B : Type} (p : mprog A) (f : A -> mprog B) : mprog B :=
+  gbind p (fun r => match r with Ok x => f x | Err t => GRet (Err t) end).
+Notation "'dmv' x <- e ; k" := (mp_bind e (fun x => k))
+  (at level 200, x pattern, e at level 100, k at level 200, right associativity).
+Fixpoint mp_fold {S A : Type} (f : S -> A -> mprog S) (l : list A) (s : S) : mprog S :=
+  match l with
+  | [] => mp_ret s
+  | a :: r => dmv s' <- f s a; mp_fold f r s'
+  end.
+(* a read of None where a value is needed (TypeError) *)
+Definition mp_unwrap {T : Type} (o : option T) : mprog T := match o with Some x => mp_ret x | None => mp_raise 99 end.
+(* a library call that may raise and does not draw *)
+Definition mp_lift {T : Type} (r : result T) : mprog T := GRet r.
+(* the generator the draw is made on: the argument, or a fresh np.random.default_rng().  WHICH generator answers is not
+   represented in a draw node (the answers of all draws form one stream) *)
+Inductive pygen := DefaultRng | ArgRng.
+(* rng.normal(size=n): n independent standard normals = np.random.normal(0, 1) n times, variances 1 *)
+Definition mp_draw_std (n : Z) : mprog (list Qc) :=
+  GDraw (DNormalVec (repeat 1 (Z.to_nat n))) (fun v => GRet (Ok (val_v v))).
+(* scipy.linalg.solve_triangular(U, z, lower=False): back substitution on the upper triangle of U, an n x n matrix
+   given as the list of its n rows;  x_j = (z_j - sum_{k > j} U[j][k] x_k) / U[j][j];  acc = x_j .. x_{n-1} *)
+Fixpoint solve_upper_go (U : list (list Qc)) (z : list Qc) (n j : nat) (acc : list Qc) : list Qc :=
+  match j with
+  | O => acc
+  | S j' =>
+      let xj := (vnth z j' - sumn (n - j) (fun t => vnth (rnth U j') (j + t) * vnth acc t)) / vnth (rnth U j') j' in
+      solve_upper_go U z n j' (xj :: acc)
+  end.
+Definition solve_upper (U : list (list Qc)) (z : list Qc) : list Qc := solve_upper_go U z (length U) (length U) [].
+(* A.T of a SQUARE matrix (the precision matrix, its Cholesky factor): a list of rows does not know its number of
+   columns when it is empty, so it is taken to be the number of rows *)
+Definition np_transpose_sq (A : list (list Qc)) : list (list Qc) := np_transpose (length A) A.
+(* scipy.linalg.cho_solve((U, False), b): solves (U^T U) x = b given the UPPER factor U, by a forward substitution with
+   the lower-triangular U^T followed by a back substitution with U *)
+Definition cho_solve_upper (U : list (list Qc)) (b : list Qc) : list Qc :=
+  solve_upper U (fwd_subst (np_transpose_sq U) b).
+
+(* the hand-written model of the whole function: [chol] is np.linalg.cholesky (Err = LinAlgError), any function; the
+   theorems about the law of the result assume its contract [chol_contract] *)
+Definition mvn_general (chol : list (list Qc) -> result (list (list Qc))) (Q : list (list Qc))
+    (mu mu_part : option (list Qc)) (chol_factor : bool) : mprog (list Qc) :=
+  match (if chol_factor then Ok Q else chol Q) with
+  | Err t => GRet (Err t)
+  | Ok L =>
+      GDraw (DNormalVec (repeat 1 (length Q))) (fun v =>
+        let x := back_subst (length L) L (val_v v) in
+        GRet (Ok (match mu_part, mu with
+                  | Some b, _ => vadd (length L) x (mvn_mean (length L) L b)
+                  | None, Some m => np_vadd x m
+                  | None, None => x
+                  end)))
+  end.
+(* ... as the Gibbs blocks call it: sample_mvn_from_precision(Q, mu_part=b) *)
+Definition mvn_prog (chol : list (list Qc) -> result (list (list Qc))) (Q : list (list Qc)) (b : list Qc) : mprog (list Qc) :=
+  match chol Q with
+  | Err t => GRet (Err t)
+  | Ok L => GDraw (DNormalVec (repeat 1 (length Q))) (fun v => GRet (Ok (sample_mvn (length L) L (val_v v) b)))
+  end.
+(* np.linalg.cholesky's contract: a lower-triangular factor of the size of Q with non-zero diagonal and L L^T = Q *)
+Definition chol_contract (chol : list (list Qc) -> result (list (list Qc))) : Prop :=
+  forall Q L, chol Q = Ok L ->
+    length L = length Q /\
+    (forall j k, (j < k)%nat -> (k < length Q)%nat -> vnth (rnth L j) k = 0) /\
+    (forall j, (j < length Q)%nat -> vnth (rnth L j) j <> 0) /\
+    (forall j k, (j < length Q)%nat -> (k < length Q)%nat ->
+       vnth (rnth Q j) k = sumn (length Q) (fun t => vnth (rnth L j) t * vnth (rnth L k) t)).
+
+(* the block methods' `try: w = sample_mvn_from_precision(Q, mu_part=b) except: ...` sees the call's answer: the
+   vector, or the fact that it raised - the model's [val] answers VV w / VFail of a [DMvn Q b] node *)
+Definition mvn_answer (r : result (list Qc)) : val := match r with Ok x => VV x | Err _ => VFail end.
+Definition mvn_call (p : mprog (list Qc)) : gprog val := gbind p (fun r => GRet (mvn_answer r)).
+(* a model program in which every [DMvn Q b] node is replaced by the program [f Q b] that computes its answer: with
+   [f] = the translated sample_mvn_from_precision the MVN draw node of a block BECOMES the translated function (its
+   Cholesky call and its standard-normal draw node) *)
+Fixpoint gplug (q : gprog val) (k : val -> prog) : prog :=
+  match q with GRet v => k v | GDraw dr k' => Draw dr (fun a => gplug (k' a) k) end.
+Fixpoint expand_mvn (f : list (list Qc) -> list Qc -> gprog val) (p : prog) : prog :=
+  match p with
+  | Ret s => Ret s
+  | Draw dr k =>
+      match dr with
+      | DMvn Q b => gplug (f Q b) (fun v => expand_mvn f (k v))
+      | _ => Draw dr (fun v => expand_mvn f (k v))
+      end
+  end.
+
+(* ---------------------------------------------------------------- vocabulary of the source translation of the wrapper class
+   SparseDrugCombo (Generated/SrcGibbsObj.v, configurations C08_SDC_...): the object is the record of the seven attributes its
+   constructor assigns; `wrapped_model` is the LegacySparseDrugComboImpl object ([pyimpl], Model/Gibbs.v) *)
+Record pysdc := { sdc_n_dims : Z; sdc_n_treatments : Z; sdc_n_samples : Z; sdc_rng : option pygen; sdc_predict_interactions : bool; sdc_interaction_log_transform : bool; sdc_wrapped : pyimpl }.
+Definition set_sdc_n_dims (o : pysdc) x : pysdc := {| sdc_n_dims := x; sdc_n_treatments := sdc_n_treatments o; sdc_n_samples := sdc_n_samples o; sdc_rng := sdc_rng o; sdc_predict_interactions := sdc_predict_interactions o; sdc_interaction_log_transform := sdc_interaction_log_transform o; sdc_wrapped := sdc_wrapped o |}.
+Definition set_sdc_n_treatments (o : pysdc) x : pysdc := {| sdc_n_dims := sdc_n_dims o; sdc_n_treatments := x; sdc_n_samples := sdc_n_samples o; sdc_rng := sdc_rng o; sdc_predict_interactions := sdc_predict_interactions o; sdc_interaction_log_transform := sdc_interaction_log_transform o; sdc_wrapped := sdc_wrapped o |}.
+Definition set_sdc_n_samples (o : pysdc) x : pysdc := {| sdc_n_dims := sdc_n_dims o; sdc_n_treatments := sdc_n_treatments o; sdc_n_samples := x; sdc_rng := sdc_rng o; sdc_predict_interactions := sdc_predict_interactions o; sdc_interaction_log_transform := sdc_interaction_log_transform o; sdc_wrapped := sdc_wrapped o |}.
+Definition set_sdc_rng (o : pysdc) x : pysdc := {| sdc_n_dims := sdc_n_dims o; sdc_n_treatments := sdc_n_treatments o; sdc_n_samples := sdc_n_samples o; sdc_rng := x; sdc_predict_interactions := sdc_predict_interactions o; sdc_interaction_log_transform := sdc_interaction_log_transform o; sdc_wrapped := sdc_wrapped o |}.
+Definition set_sdc_predict_interactions (o : pysdc) x : pysdc := {| sdc_n_dims := sdc_n_dims o; sdc_n_treatments := sdc_n_treatments o; sdc_n_samples := sdc_n_samples o; sdc_rng := sdc_rng o; sdc_predict_interactions := x; sdc_interaction_log_transform := sdc_interaction_log_transform o; sdc_wrapped := sdc_wrapped o |}.
+Definition set_sdc_interaction_log_transform (o : pysdc) x : pysdc := {| sdc_n_dims := sdc_n_dims o; sdc_n_treatments := sdc_n_treatments o; sdc_n_samples := sdc_n_samples o; sdc_rng := sdc_rng o; sdc_predict_interactions := sdc_predict_interactions o; sdc_interaction_log_transform := x; sdc_wrapped := sdc_wrapped o |}.
+Definition set_sdc_wrapped (o : pysdc) x : pysdc := {| sdc_n_dims := sdc_n_dims o; sdc_n_treatments := sdc_n_treatments o; sdc_n_samples := sdc_n_samples o; sdc_rng := sdc_rng o; sdc_predict_interactions := sdc_predict_interactions o; sdc_interaction_log_transform := sdc_interaction_log_transform o; sdc_wrapped := x |}.
+(* a new instance before its __init__ ran (object.__new__): no attribute yet - every field at a blank value *)
+Definition obs_blank : pyobs := obs_empty.
+Definition st_blank : st :=
+  {| W := []; W0 := []; V2 := []; V1 := []; V0 := []; alpha := 0; prec := 0; tau := []; tau0 := 0; phi2 := []; phi1 := []; phi0 := [];
+     eta2 := []; eta1 := []; eta0 := 0; gam := []; Mu := [] |}.
+Definition pi_blank : pyimpl :=
+  {| pi_D := 0%Z; pi_ndd := 0%Z; pi_ncl := 0%Z; pi_minMu := 0; pi_maxMu := 0; pi_a0 := 0; pi_b0 := 0; pi_individual_eff := false;
+     pi_intercept := false; pi_fake_intercept := false; pi_local_shrinkage := false; pi_mult_gamma_proc := false; pi_steps := 0%Z;
+     pi_obs := obs_blank; pi_st := st_blank |}.
+(* a method call on the wrapped object mutates it in place: the wrapper goes on holding the updated object *)
+Definition sdc_on_wrapped (o : pysdc) (r : result pyimpl) : result pysdc :=
+  match r with Ok w => Ok (set_sdc_wrapped o w) | Err t => Err t end.
+(* ... for mcmc_step, which the first part translates on the sampler state of the wrapped object (its step counter, which
+   nothing reads, is not carried) *)
+Definition sdc_with_state (o : pysdc) (s : st) : pysdc := set_sdc_wrapped o (set_pi_st (sdc_wrapped o) s).
+(* the object SparseDrugCombo.__init__ leaves behind *)
+Definition sdc_init_obj (n_samples n_treatments D : nat) (fake_intercept individual_eff mult_gamma_proc local_shrinkage : bool)
+    (a0 b0 minMu maxMu : Qc) (rng : option pygen) (predict_interactions interaction_log_transform intercept : bool) : pysdc :=
+  {| sdc_n_dims := Z.of_nat D; sdc_n_treatments := Z.of_nat n_treatments; sdc_n_samples := Z.of_nat n_samples; sdc_rng := rng;
+     sdc_predict_interactions := predict_interactions; sdc_interaction_log_transform := interaction_log_transform;
+     sdc_wrapped := init_obj D n_treatments n_samples intercept fake_intercept individual_eff mult_gamma_proc local_shrinkage a0 b0 minMu maxMu |}.
